@@ -3,7 +3,7 @@
 choice where the statements leave one open) must leave every check silent.
 
 usage: control.py validate <dir with patch.diff + README.md> <control id> [--tier quick]
-       control.py rerun [<control id> ...]
+       control.py rerun [<control id> ...] [--props C06,C10]   (only these checks; the other verdicts are kept)
 
 Validation, in a scratch copy of /repo outside /repo and /verif (removed afterwards): the patch applies, builds (also
 with -tags verif), the repository's suite still passes; then ALL checks are run against the copy with VERIF_REPO. Any
@@ -22,6 +22,9 @@ import seeded  # noqa: E402
 
 ROOT = seeded.ROOT
 CONTROLS = os.path.join(ROOT, "controls")
+
+
+PROPS = None  # rerun --props: only these checks are run again
 
 
 def run(src, cid, tier):
@@ -45,7 +48,10 @@ def run(src, cid, tier):
         if not ok:
             print("existing suite fails:", missing)
             return None
-        res = seeded.run_checks(repo, seeded.ALL, tier)
+        res = seeded.run_checks(repo, PROPS or seeded.ALL, tier)
+        if PROPS:
+            old = json.load(open(os.path.join(CONTROLS, cid, "meta.json")))["checks"]
+            res = dict(old, **res)
         meta["checks"] = res
         meta["tier"] = tier
         meta["alarms"] = sorted(k for k, v in res.items() if v["verdict"] != "missed")
@@ -60,6 +66,11 @@ def main():
     if "--tier" in sys.argv:
         tier = sys.argv[sys.argv.index("--tier") + 1]
         args = [a for a in args if a != tier]
+    if "--props" in sys.argv:
+        global PROPS
+        v = sys.argv[sys.argv.index("--props") + 1]
+        PROPS = v.split(",")
+        args = [a for a in args if a != v]
     if args[0] == "validate":
         src, cid = args[1], args[2]
         meta = run(src, cid, tier)
